@@ -19,8 +19,8 @@ ID = "C18"
 LEVEL = "model_checking"
 RULE = (
     "release discrete/continuous x extra release column (none / int particle variable / time-typed release_time) x IBM variable none/one x diffusion 0/>0 x "
-    "subgrid none/some x advection EF/RK4 x grid section explicit / omitted with plain forcing name / omitted with wildcard forcing name x optional sections "
-    "omitted / explicitly empty x reference time given/defaulted x dt spelling; each point = 3 renderings, 3 runs; non-trivial = point where at least one "
+    "subgrid none/some x advection EF/RK4 x grid section explicit / omitted with plain forcing name / omitted with wildcard forcing name (* and a character class) x optional sections "
+    "omitted / explicitly empty / blank (a YAML section header with nothing under it) x reference time given/defaulted x dt spelling; each point = 3 renderings, 3 runs; non-trivial = point where at least one "
     "optional feature (continuous, extra column, IBM variable, subgrid, omitted grid) is on; lattice points distinct by construction"
 )
 RULE += " Beyond the lattice (chosen scenarios, not enumerated): a v1 period of 30 h, a reference time at the epoch, an IBM option with value 0.0."
@@ -33,14 +33,14 @@ NSTEPS = 5
 
 def bounds(tier, seed):
     return dict(release=["discrete", "continuous"], column=["none", "int", "time"], ibmvar=[False, True], diffusion=[0.0, 2.5, 4], subgrid=[None, [2, 9, 1, 7]], advection=["EF", "RK4"],
-                grid=["explicit", "explicit-plugin-nomodule", "omitted-plain", "omitted-wildcard"], optional=["omitted", "empty"], reference=[False, True], dt=["int", "list", "iso"])
+                grid=["explicit", "explicit-plugin-nomodule", "omitted-plain", "omitted-wildcard", "omitted-wildcard-class"], optional=["omitted", "empty", "blank"], reference=[False, True], dt=["int", "list", "iso"])
 
 
 def cases(tier, seed):
     out = []
     k = seed
-    for rel, col, ibm, diff, grid in itertools.product(["discrete", "continuous"], ["none", "int", "time"], [False, True], [0.0, 2.5, 4], ["explicit", "explicit-plugin-nomodule", "omitted-plain", "omitted-wildcard"]):
-        others = list(itertools.product([None, [2, 9, 1, 7]], ["EF", "RK4"], ["omitted", "empty"], [False, True], ["int", "list", "iso"]))
+    for rel, col, ibm, diff, grid in itertools.product(["discrete", "continuous"], ["none", "int", "time"], [False, True], [0.0, 2.5, 4], ["explicit", "explicit-plugin-nomodule", "omitted-plain", "omitted-wildcard", "omitted-wildcard-class"]):
+        others = list(itertools.product([None, [2, 9, 1, 7]], ["EF", "RK4"], ["omitted", "empty", "blank"], [False, True], ["int", "list", "iso"]))
         if tier == "quick":
             k += 1
             others = [others[(k * 5) % len(others)], others[(k * 11 + 7) % len(others)]]
@@ -83,7 +83,8 @@ def dt_spelling(kind):
 
 
 def forcing_name(case, d):
-    return str(d / ("single.nc" if case["grid"] == "omitted-plain" else "f_*.nc"))
+    # "omitted-wildcard-class": a wildcard written with a character class instead of * or ?
+    return str(d / ("single.nc" if case["grid"] == "omitted-plain" else "f_00[0-9].nc" if case["grid"] == "omitted-wildcard-class" else "f_*.nc"))
 
 
 def plugin_path(d):
@@ -128,7 +129,7 @@ def render_v2(case, d, cols, outname, native_time=False):
             c["grid"]["subgrid"] = case["subgrid"]
     elif case["subgrid"]:
         c["grid"] = dict(subgrid=case["subgrid"])
-    elif case["optional"] == "empty":
+    elif case["optional"] in ("empty", "blank"):
         c["grid"] = {}
     state = {}
     iv, pv = {}, {}
@@ -143,7 +144,7 @@ def render_v2(case, d, cols, outname, native_time=False):
         state["default_values"] = {k: 0 for k in iv}
     if pv:
         state["particle_variables"] = pv
-    if state or case["optional"] == "empty":
+    if state or case["optional"] in ("empty", "blank"):
         c["state"] = state
     c["tracker"] = dict(advection=case["advection"])
     if case["diffusion"]:
@@ -153,9 +154,9 @@ def render_v2(case, d, cols, outname, native_time=False):
         c["release"].update(continuous=True, release_frequency=[20, "m"])
     if case["ibmvar"]:
         c["ibm"] = dict(module=drive.plug("sibm.py"), **ibm_options(case))
-    elif case["optional"] == "empty":
+    elif case["optional"] in ("empty", "blank"):
         c["ibm"] = {}
-    if case["optional"] == "empty":
+    if case["optional"] in ("empty", "blank"):
         c["warm_start"] = {}
     inst = ["pid", "X", "Y", "Z"] + (["age"] if case["ibmvar"] else [])
     part = [v for v in pv]
@@ -285,6 +286,10 @@ def run_case(case):
     files = {}
     native = True  # the v2 files carry the reference time as a native timestamp (YAML timestamp, TOML local date-time), the v1 file as a string
     v2 = render_v2(case, d, cols, "out_yaml2.nc", native_time=native)
+    if case["optional"] == "blank":  # YAML only: a section header with nothing under it (`ibm:`) is read as None; TOML has no such thing, its table stays empty
+        for sec in ("grid", "state", "ibm", "warm_start"):
+            if v2.get(sec) == {}:
+                v2[sec] = None
     (d / "c_yaml2.yaml").write_text(yaml.safe_dump(v2, sort_keys=False))
     files["yaml2"] = d / "c_yaml2.yaml"
     (d / "c_toml2.toml").write_text(to_toml(render_v2(case, d, cols, "out_toml2.nc", native_time=native)))
